@@ -31,6 +31,27 @@ from .common import Check, enc
 warnings.filterwarnings("ignore")
 
 SRC_EXT = [".c", ".h", ".cpp", ".f90", ".S", ".cu"]
+# every extension of both tables (as of writing; the sweep below re-reads them from the source) except fixed-form
+# Fortran, whose files the command-line tools cannot parse (DESIGN section 6 no. 32)
+SRC_EXT_MORE = [".F90", ".c++", ".cxx", ".cc", ".hpp", ".hxx", ".h++", ".hh", ".inc", ".inl", ".tcc", ".icc", ".ipp",
+                ".cuh", ".cl", ".s", ".asm"]
+SRC_EXT_FIXED = [".f", ".ftn", ".fpp", ".F", ".FOR", ".FTN", ".FPP"]
+NEAR_MISSES = ["", ".", ".C", ".H", ".Cpp", ".f95", ".for", ".cp", ".c+", ".c++x", ".hpp~", ".txt", ".o", ".c.bak", ".tar",
+               ".ASM", ".Cu", ".f9", ".90"]
+
+
+def table_extensions():
+    """extensions named by source.is_source_file and by FileLanguage, read from the repo's current source"""
+    try:
+        import importlib.util
+        sp = importlib.util.spec_from_file_location("c09_tables", common.VERIF / "tools" / "gen" / "c09_tables.py")
+        mod = importlib.util.module_from_spec(sp)
+        sp.loader.exec_module(mod)
+        a = mod._source_extensions(common.REPO)
+        _, table = mod._language_tables(common.REPO)
+        return sorted(set(a) | {e for _, v in table for e in v})
+    except Exception:  # noqa  (the translator's failure is reported by the build step)
+        return sorted(set(SRC_EXT + SRC_EXT_MORE + SRC_EXT_FIXED))
 OTHER_EXT = [".txt", ".o", "", ".C", "."]
 DIR_NAMES = ["a", "b", "build", "d e", "x[1]", "s*r", "q?", ".g", "a.c"]
 FILE_STEMS = ["x", "z", "m n", "a*b", "q?", "[k]", ".hid", "#h", "!e", "b\\s", "a", "xa", "."]
@@ -46,7 +67,7 @@ def is_src_name(name: str) -> bool:
 # --------------------------------------------------------------------------
 # generators
 # --------------------------------------------------------------------------
-def gen_tree(rng, loops=False):
+def gen_tree(rng, loops=False, fixed_fortran=True):
     """entries under the model root: r/ (the code base), o/ (outside), sometimes r2/"""
     entries = [[["r"], "D"], [["o"], "D"]]
     dirs = [["r"], ["o"]]
@@ -65,7 +86,8 @@ def gen_tree(rng, loops=False):
                 dirs.append(d + [n])
                 fill(d + [n], depth + 1)
             else:
-                n = rng.choice(FILE_STEMS) + rng.choice(SRC_EXT * 3 + OTHER_EXT)
+                n = rng.choice(FILE_STEMS) + rng.choice(SRC_EXT * 6 + OTHER_EXT * 2 + SRC_EXT_MORE
+                                                        + (SRC_EXT_FIXED if fixed_fortran else []) + NEAR_MISSES[2:8])
                 if n in names or n in (".", ".."):
                     continue
                 names.add(n)
@@ -231,8 +253,8 @@ def link_dirs_of(entries):
     return out
 
 
-def gen_case(rng, malformed=False):
-    entries, dirs, files = gen_tree(rng, loops=malformed)
+def gen_case(rng, malformed=False, fixed_fortran=True):
+    entries, dirs, files = gen_tree(rng, loops=malformed, fixed_fortran=fixed_fortran)
     real_dirs = [d for d in dirs]
     cwd = rng.choice([[], ["r"], ["r"]] + real_dirs)
     ldirs = link_dirs_of(entries)
@@ -399,6 +421,21 @@ class C09(Check):
         self.stats["exhaustive"] = {"cases": len(lists), "bound": "all lists of <= 2 lines over 30 atoms (second line plain or negated) "
                                     + ("and a third over 11 atoms with 4 sign patterns " if not quick else "(plain pairs: one third) ")
                                     + "on the fixed tree, 15 queries each"}
+        # extension sweep: one file per extension of either table (re-read from the source) and per near miss,
+        # as plain name, hidden name, dots-only stem and below a directory named like a source file
+        exts = table_extensions() + NEAR_MISSES
+        ext_tree = [[["r"], "D"], [["r", "d.c"], "D"]]
+        for e in exts:
+            for stem in ("f", ".h", ".", "a.b"):
+                if stem + e not in (".", ".."):
+                    ext_tree.append([["r", stem + e], "F"])
+            ext_tree.append([["r", "d.c", "g" + e], "F"])
+        seen_names = set()
+        ext_tree = [e for e in ext_tree if not (tuple(e[0]) in seen_names or seen_names.add(tuple(e[0])))]
+        ext_q = ["/" + "/".join(e[0]) for e in ext_tree]
+        out.append([ext_tree, [], ["/r"], [], ext_q])
+        out.append([ext_tree, ["r"], ["."], ["*.h", "!/f.h", "d.c/"], [q[3:] for q in ext_q if q.startswith("/r/")]])
+        self.stats["extension_sweep"] = {"extensions": len(exts), "files": len(ext_tree) - 2}
         n_valid = 700 if quick else 12000
         n_bad = 200 if quick else 3000
         for _ in range(n_valid):
@@ -409,7 +446,7 @@ class C09(Check):
         # given as -x options and the others in the analysis file's [codebase] exclude list
         n_cli = 6 if quick else 70
         for i in range(n_cli):
-            c = gen_case(self.rng, malformed=(i % 7 == 6))
+            c = gen_case(self.rng, malformed=(i % 7 == 6), fixed_fortran=False)
             c[1], c[2] = ["r"], ["."]
             k = self.rng.randint(0, len(c[3]))
             if i % 3 == 2 and not any(l.startswith("-") for l in c[3]):
